@@ -794,11 +794,11 @@ func (cs *simClientStream) CloseSend() error {
 
 func (cs *simClientStream) SendMsg(m any) error {
 	rt.Yield("net.SendMsg")
-	if cs.srvDone {
-		return io.EOF
-	}
 	if err := cs.ctx.Err(); err != nil {
 		return status.FromContextError(err).Err()
+	}
+	if cs.srvDone {
+		return io.EOF
 	}
 	cs.toSrv = append(cs.toSrv, proto.Clone(m.(proto.Message)))
 	cs.sent++
@@ -813,13 +813,15 @@ func (cs *simClientStream) RecvMsg(m any) error {
 		cs.toCli = cs.toCli[1:]
 		return nil
 	}
-	if cs.srvDone {
-		if cs.srvErr != nil {
-			return status.Convert(cs.srvErr).Err()
-		}
-		return io.EOF
+	// a stream whose context ended is aborted on the client side, whatever
+	// the handler returned (gRPC reports the caller's own cancellation)
+	if err := cs.ctx.Err(); err != nil {
+		return status.FromContextError(err).Err()
 	}
-	return status.FromContextError(cs.ctx.Err()).Err()
+	if cs.srvErr != nil {
+		return status.Convert(cs.srvErr).Err()
+	}
+	return io.EOF
 }
 
 // server side views of the same stream
@@ -863,6 +865,9 @@ func (r *simSrvRead) Send(m *bytestream.ReadResponse) error {
 
 func (n *simConn) NewStream(ctx context.Context, desc *grpc.StreamDesc, method string, opts ...grpc.CallOption) (grpc.ClientStream, error) {
 	rt.Yield("net.NewStream " + method)
+	if err := ctx.Err(); err != nil {
+		return nil, status.FromContextError(err).Err()
+	}
 	cs := &simClientStream{ctx: ctx, s: n.s}
 	switch method {
 	case "/google.bytestream.ByteStream/Write":
@@ -989,8 +994,32 @@ func c14BackToBack(c *sim.RunCtx) {
 						c.Count("probe_b2b_put", 1)
 					case 1:
 						had := backend.Has(ob.D)
-						data, err := ba.Get(ctx, ob.D).ToByteSlice(1 << 20)
-						c.Logf("Get(o%d, %d bytes) had=%v -> %d bytes, %v", o[1], len(ob.Data), had, len(data), err)
+						gctx := ctx
+						cancelled := false
+						if (o[1]+len(ob.Data))%4 == 0 {
+							// the caller gives up at some point during the read
+							var cancel context.CancelFunc
+							gctx, cancel = context.WithCancel(ctx)
+							delay := 1 + (o[1]*7+len(ob.Data))%23
+							s.Go("canceller", func() {
+								for i := 0; i < delay; i++ {
+									rt.Yield("cancel-delay")
+								}
+								cancelled = true
+								cancel()
+							})
+						}
+						data, err := ba.Get(gctx, ob.D).ToByteSlice(1 << 20)
+						c.Logf("Get(o%d, %d bytes) had=%v cancelled=%v -> %d bytes, %v", o[1], len(ob.Data), had, cancelled, len(data), err)
+						if err != nil && cancelled {
+							// giving up is not corruption: the caller sees its own cancellation
+							// (or NOT_FOUND / a backend failure that arrived first), never INTERNAL
+							if status.Code(err) == codes.Internal {
+								c.Fail("cancellation-reported-as-corruption", "Get(o%d) was cancelled by its caller and failed with %v [%s]", o[1], err, desc)
+							}
+							c.Count("fault_caller_cancelled_read", 1)
+							continue
+						}
 						if err == nil {
 							if !bytes.Equal(data, ob.Data) {
 								c.Fail("wrong-bytes", "Get(o%d) returned %s [%s]", o[1], short(data), desc)
